@@ -3,6 +3,7 @@ import Flowjaxv.Proofs.ArrGen
 import Flowjaxv.Proofs.Leaves
 import Flowjaxv.Proofs.Flows
 import Flowjaxv.Proofs.CtorsGen
+import Flowjaxv.Proofs.JaxTransforms
 /-!
 # C08 — combinators mean what their definitions say, for every shape and axis
 
@@ -819,5 +820,84 @@ theorem coupling_flow_chain_instance :
   (coupling_flow_eq_chain defaultTransformer 3 couplingKeys 2).1
 
 end PremadeFlows
+
+/-! ## Scan and Vmap, REGENERATED (`Gen/JaxTransforms.lean`, translated from `jax_transforms.py` on every run by
+`tools/py2lean/py2meth.py`, sheet `targets_jaxtr.py`; the meanings of `lax.scan`, `eqx.partition` / `combine`, `eqx.filter_vmap`
+are the hand-written `Model/JaxTrWorld.lean` — trusted, compared with the real objects by `tools/props/c08.py`) -/
+section JaxTransformsGen
+open GenJaxTr
+
+/-- **the generated `_filter_scan`** (`eqx.partition(xs, eqx.is_array)`, `_scan_fn` = `f` on `eqx.combine(x, static)`,
+`scan(_scan_fn, init, params, reverse=reverse)`): the final carry is the left fold of `f` over the unstacked layers — over the
+REVERSED list exactly when `reverse` — and one `ys` entry per layer is returned; every carry type, layer type, `f`, length. -/
+theorem gen_filter_scan_carry {γ β υ : Type} (f : γ → β → γ × υ) (init : γ) (xs : JaxTr.Stacked β) (r : Bool) :
+    (filterScan f init xs r).1 = (if r then xs.layers.reverse else xs.layers).foldl (fun c b => (f c b).1) init
+    ∧ (filterScan f init xs r).2.length = xs.layers.length :=
+  ⟨JaxTrProofs.filterScan_fst f init xs r, JaxTrProofs.filterScan_snd_length f init xs r⟩
+
+/-- **`gen_scan_eq_chain`** — the four GENERATED `Scan` methods (nested `step` closures with the captured `condition`, carries
+`(x, 0)` / `(y, log_det + log_det_i.sum())`, `_filter_scan(step, init, self.bijection[, reverse=True])`) are the four GENERATED
+`Chain` methods of the unstacked layers: `transform` applies the layers first to last, `inverse` last to first, the two
+`…_and_log_det` methods return those points and the sum of the layers' log-dets — every number of layers, heterogeneous layer
+behaviour, every input and condition, every log-det scalar type. -/
+theorem gen_scan_eq_chain {X C α : Type} [Add α] [Neg α] [OfNat α 0] (s : JaxTr.Scan X C α) :
+    (∀ x c, Scan.transform s x c = (Chain.mk s.bijection.layers).transform x c)
+    ∧ (∀ y c, Scan.inverse s y c = (Chain.mk s.bijection.layers).inverse y c)
+    ∧ (∀ x c, Scan.transform_and_log_det s x c = (Chain.mk s.bijection.layers).transform_and_log_det x c)
+    ∧ (∀ y c, Scan.inverse_and_log_det s y c = (Chain.mk s.bijection.layers).inverse_and_log_det y c)
+    ∧ s.toBij = (Chain.mk s.bijection.layers).toBij :=
+  ⟨JaxTrProofs.scan_transform_eq s, JaxTrProofs.scan_inverse_eq s, JaxTrProofs.scan_tld_eq s, JaxTrProofs.scan_ild_eq s,
+   JaxTrProofs.scan_toBij_eq_chain s⟩
+
+/-- the HAND models of `Scan` used elsewhere (`ArrComb.scan` of `Model/ArrExt.lean`, `Flows.scanOf` of `Model/FlowsPre.lean`,
+both defined as the generated `Chain` of the unstacked layers: `scan_eq_chain`, `scan_eq_chain_of_unstacked`) are the GENERATED
+`Scan` of the stacked layers — so every theorem about them is a theorem about the regenerated code. -/
+theorem gen_scan_eq_hand {X C κ : Type} (layers : List (Bij X C ℝ)) (alayers : List (Bij (Arr κ) C ℝ)) :
+    Flows.scanOf layers = (JaxTr.scanOfLayers layers).toBij ∧ ArrComb.scan alayers = (JaxTr.scanOfLayers alayers).toBij :=
+  ⟨(JaxTrProofs.scan_toBij_eq_chain (JaxTr.scanOfLayers layers)).symm,
+   (JaxTrProofs.scan_toBij_eq_chain (JaxTr.scanOfLayers alayers)).symm⟩
+
+/-- the premade-flow statement on the regenerated `Scan`: `Scan(filter_vmap(make_layer)(split(key, n)))` with the generated
+`Scan` methods is the generated `Chain` of `[make_layer(key 0), …, make_layer(key (n−1))]` -/
+theorem gen_scan_eq_chain_of_unstacked {X C κ : Type} (makeLayer : κ → Bij X C ℝ) (key : ℕ → κ) (n : ℕ) :
+    (JaxTr.scanOfLayers (Flows.filterVmap makeLayer (Flows.jrSplitN key n))).toBij
+      = (Chain.mk ((List.range n).map fun i => makeLayer (key i))).toBij := by
+  rw [JaxTrProofs.scan_toBij_eq_chain]; simp [JaxTr.scanOfLayers, Flows.filterVmap, Flows.jrSplitN, Function.comp_def]
+
+/-- generated `Scan` of typed-composable lawful layers is lawful (any number of layers) -/
+theorem gen_scan_lawful {X C : Type} {s : JaxTr.Scan X C ℝ} {D E : Set X} (h : ChainLawful s.bijection.layers D E) :
+    s.toBij.Lawful D E := JaxTrProofs.scan_lawful h
+
+/-- the generated `shape` / `cond_shape` properties of `Scan` are the stacked bijection's -/
+theorem gen_scan_shape {X C : Type} (s : JaxTr.Scan X C ℝ) :
+    Scan.shape s = s.bijection.shape ∧ Scan.cond_shape s = s.bijection.cond_shape := ⟨rfl, rfl⟩
+
+/-- non-vacuity, and the ORDER made visible: for the stacked layers `x ↦ x + 1`, `x ↦ 2·x` the generated `Scan` maps `0 ↦ 2`
+with log-det `0 + log 2`-slot sum `10 + 20`, and its inverse maps `2 ↦ 0` (halve first, then subtract: the scan runs in
+reverse; the forward order would give `1/2`). -/
+theorem gen_scan_instance :
+    let l1 : Bij ℝ Unit ℝ := ⟨fun x _ => x + 1, fun y _ => y - 1, fun x _ => (x + 1, 10), fun y _ => (y - 1, -10)⟩
+    let l2 : Bij ℝ Unit ℝ := ⟨fun x _ => 2 * x, fun y _ => y / 2, fun x _ => (2 * x, 20), fun y _ => (y / 2, -20)⟩
+    let s := JaxTr.scanOfLayers [l1, l2]
+    s.toBij.fwd 0 () = 2 ∧ s.toBij.inv 2 () = 0 ∧ s.toBij.fwdLd 0 () = (2, 30) ∧ s.toBij.invLd 2 () = (0, -30)
+      ∧ s.toBij.Lawful univ univ := by
+  intro l1 l2 s
+  have hl : s.toBij.Lawful univ univ := by
+    refine gen_scan_lawful (.cons (M := univ) ⟨fun _ _ _ => trivial, fun _ _ _ => trivial, ?_, ?_, fun _ _ => rfl, fun _ _ => rfl⟩
+      (.cons (M := univ) ⟨fun _ _ _ => trivial, fun _ _ _ => trivial, ?_, ?_, fun _ _ => rfl, fun _ _ => rfl⟩ (.nil _)))
+    · intro x _ _; simp [l1]
+    · intro x _ _; simp [l1]
+    · intro x _ _; simp [l2]
+    · intro x _ _; simp [l2]; ring
+  refine ⟨?_, ?_, ?_, ?_, hl⟩
+  · simp [s, JaxTr.Scan.toBij, JaxTrProofs.scan_transform_eq, JaxTr.scanOfLayers, Chain.transform, l1, l2]
+  · simp [s, JaxTr.Scan.toBij, JaxTrProofs.scan_inverse_eq, JaxTr.scanOfLayers, Chain.inverse, l1, l2]
+  · simp [s, JaxTr.Scan.toBij, JaxTrProofs.scan_tld_eq, JaxTr.scanOfLayers, Chain.transform_and_log_det, l1, l2, Jnp.sumElem]
+    norm_num
+  · simp [s, JaxTr.Scan.toBij, JaxTrProofs.scan_ild_eq, JaxTr.scanOfLayers, Chain.inverse_and_log_det, l1, l2, Jnp.sumElem]
+    norm_num
+
+end JaxTransformsGen
+
 
 end C08
